@@ -77,6 +77,8 @@ def _table_cell(tree, prog, module, table, row, event):
             if not isinstance(rv, ast.Dict):
                 raise EditFailed("row %s of %s is computed, not a dict display" % (row, table))
             for i, (ck, cv) in enumerate(zip(rv.keys, rv.values)):
+                if ck is None:
+                    continue  # **fragment: its cells are not individually editable
                 if prog.fold(ck, module) == event:
                     return rv, i
             return rv, None
